@@ -189,4 +189,11 @@ theorem nodup_compress_iff (l : List Int) : (compress l).Nodup ↔ OneBlockEach 
     simp only [compress, hxy, ↓reduceIte]
     rw [List.nodup_cons, mem_compress, ih, oneBlock_ne x y t hxy]
 
+/-! ### counting errors (`auditErrors`) -/
+
+theorem ite01 (b : Bool) : (if b = true then 0 else 1) = 0 ↔ b = true := by
+  cases b <;> simp
+theorem ite10 (b : Bool) : (if b = true then 1 else 0) = 0 ↔ b = false := by
+  cases b <;> simp
+
 end Panel
